@@ -229,7 +229,9 @@ func (c *simConn) ReadFrom() (ndp.Message, *ipv6.ControlMessage, netip.Addr, err
 			if in.Err != nil {
 				return nil, nil, netip.Addr{}, in.Err
 			}
-			return in.Msg, &ipv6.ControlMessage{HopLimit: in.HopLimit}, in.From, nil
+			// as package ndp does: the source always carries the zone of the interface the socket is bound to
+			// (also the unspecified address, which then no longer compares equal to netip.IPv6Unspecified())
+			return in.Msg, &ipv6.ControlMessage{HopLimit: in.HopLimit}, in.From.WithZone("sim0"), nil
 		case <-dc:
 			// deadline changed, re-evaluate
 		case <-timer:
@@ -261,6 +263,7 @@ func (c *simConn) WriteTo(m ndp.Message, _ *ipv6.ControlMessage, dst netip.Addr)
 	c.nwrites++
 	c.mu.Unlock()
 	ra, _ := m.(*ndp.RouterAdvertisement)
+	dst = dst.WithZone("") // package ndp overwrites the zone of the destination with the socket's interface
 	sw := simWrite{Conn: c.id, Start: c.w.now(), End: -1, Dst: dst}
 	if ra != nil {
 		sw.Lifetime, sw.RA = ra.RouterLifetime, raStr(ra)
